@@ -387,9 +387,11 @@ def spec_c05(tier, seed):
                 if s1 and v1 in (3, 7):
                     parts.append({'s1': s1, 'v1': v1, 'moments': 2, 'third': 1, 'lenhdr': False})
                     parts.append({'s1': s1, 'v1': v1, 'moments': 2, 'third': 2, 'lenhdr': True})
+                if s1 and v1 in (11, 13):
+                    parts.append({'s1': s1, 'v1': v1, 'moments': 2, 'third': 3, 'lenhdr': False})
             else:
                 # (thorough run #2: 168 partitions at up to 1180 s each took 91 min; one framing per third-source kind)
-                for third, lh in ((0, v1 % 2 == 0), (1, False), (2, True)):
+                for third, lh in ((0, v1 % 2 == 0), (1, False), (2, True)) + (((3, False),) if v1 >= 10 and s1 else ()):
                     parts.append({'s1': s1, 'v1': v1, 'moments': 3, 'third': third, 'lenhdr': lh})
     return dict(
         conds=[Cond('c05_wire_order', 'c_wire_order', parts=parts, timeout=600 if q else 1800)],
@@ -399,7 +401,7 @@ def spec_c05(tier, seed):
                     'socket API before the sender starts or after the j-th emitted frame; the emitted wire sequence is fed to '
                     'a receiver-side FrameFragmentCache: per-stream order = queue order, no same-stream frame between '
                     'fragments, every payload reassembles to the original bytes',
-        bounds=['2 free sources + third in {none, 2-fragment payload on stream 3, COMPLETE on stream 1}', 'queuing moments 0..%d emitted frames' % (2 if q else 3),
+        bounds=['2 free sources + third in {none, 2-fragment payload on stream 3, COMPLETE on stream 1, inbound respond-flagged KEEPALIVE}', 'queuing moments 0..%d emitted frames' % (2 if q else 3),
                 '2 streams, <= 4 fragments per payload, fragment size 64, both framings', '%d partitions' % len(parts)],
         outside=['more than 3 queued sources, more than 2 streams, other fragment sizes (C03 covers the fragmenter for all sizes)'],
         functions=['rsocket.rsocket_base.RSocketBase._get_next_frame_to_send', 'rsocket.rsocket_base.RSocketBase._cycle_fragmented_frame_source',
